@@ -102,7 +102,7 @@ CallFailedRules(e) ==
                    \cup (IF s.icb \in {"err", "panic"} THEN (IF out.ok THEN {"C10.ImplErrorPropagates"} ELSE {})
                          ELSE IF ~ImplConforms(s) THEN (IF out.ok THEN {"C10.NeverReturnsNonConforming"} ELSE {})
                          ELSE (IF out.ok /\ UnmarkDeep(out.val).ty = ImplValue(s).ty
-                                  /\ (ImplValue(s).st = "k" => Canon(out.val) = Canon(ImplValue(s)))
+                                  /\ (ImplValue(s).st = "k" => UnmarkDeep(out.val) = ImplValue(s))
                                   /\ MustCarry(s, args) \subseteq MarksIn(out.val)
                                   /\ MarksIn(out.val) \subseteq UNION {MarksIn(args[i]) : i \in 1..Len(args)}
                                THEN {} ELSE {"C10.ResultIsImplResultWithMarks"})
